@@ -32,7 +32,7 @@ func (c *Ctx) Txn() *txnAnchors {
 	p := c.P
 	a := &txnAnchors{p: p}
 	fn := func(dst **ssa.Function, rel, recv, name string) {
-		*dst = p.Fn(rel, recv, name)
+		*dst = p.FnOr(rel, recv, name)
 		if *dst == nil {
 			a.missing = append(a.missing, strings.Trim(rel+"."+recv+"."+name, "."))
 		}
@@ -420,31 +420,87 @@ func runSnapCommit(c *Ctx, r *RuleRun) {
 	}
 	cts := extractOf(allocs[0], 0)
 	verField := p.Field("types", "Entry", "Version")
-	n := 0
-	for _, st := range storesToField(cf, verField) {
-		n++
-		r.Check(unconv(st.Val) == cts, cfn, "Entry.Version = commitTs", p.Pos(instrPos(st)), "stamped with the commit timestamp", "an applied entry gets a version other than the commit timestamp")
+	// the commit timestamp, in Commit itself or as a parameter of a helper that every call site in Commit feeds with it
+	isCts := func(v ssa.Value) bool {
+		v = unconv(v)
+		if v == cts {
+			return true
+		}
+		pr, ok := v.(*ssa.Parameter)
+		if !ok {
+			return false
+		}
+		g := pr.Parent()
+		idx := -1
+		for i, q := range g.Params {
+			if q == pr {
+				idx = i
+			}
+		}
+		sites := p.CallersOf(g)
+		if idx < 0 || len(sites) == 0 {
+			return false
+		}
+		for _, cs := range sites {
+			if cs.Parent() != cf || idx >= len(cs.Common().Args) || unconv(cs.Common().Args[idx]) != cts {
+				return false
+			}
+		}
+		return true
 	}
-	for _, kc := range callsTo(p, cf, a.keyWithTs) {
-		n++
-		r.Check(len(kc.Call.Args) == 2 && unconv(kc.Call.Args[1]) == cts, cfn, "KeyWithTs(k, commitTs)", p.Pos(instrPos(kc)), "keyed with the commit timestamp", "an applied entry is keyed with a timestamp other than the commit timestamp")
+	n := 0
+	for g := range c.Locks().roleReach([]*ssa.Function{cf}) {
+		if g.Pkg != cf.Pkg {
+			continue
+		}
+		for _, st := range storesToField(g, verField) {
+			n++
+			r.Check(isCts(st.Val), p.FnName(g), "Entry.Version = commitTs", p.Pos(instrPos(st)), "stamped with the commit timestamp", "an applied entry gets a version other than the commit timestamp")
+		}
+		if g == cf || len(storesToField(g, verField)) > 0 {
+			for _, kc := range callsTo(p, g, a.keyWithTs) {
+				n++
+				r.Check(len(kc.Call.Args) == 2 && isCts(kc.Call.Args[1]), p.FnName(g), "KeyWithTs(k, commitTs)", p.Pos(instrPos(kc)), "keyed with the commit timestamp", "an applied entry is keyed with a timestamp other than the commit timestamp")
+			}
+		}
 	}
 	if n == 0 {
 		r.Undecided(cfn, "entry stamping", p.Pos(cf.Pos()), "Commit builds no versioned entries")
 	}
-	dcs := callsTo(p, cf, a.doneCommit)
-	for _, dc := range dcs {
-		r.Check(len(dc.Call.Args) == 2 && dc.Call.Args[1] == cts, cfn, "doneCommit(commitTs)", p.Pos(instrPos(dc)), "finishes the timestamp it began", "doneCommit is called with a timestamp other than the one begun")
+	nd := 0
+	eachInstr(cf, func(ins ssa.Instruction) {
+		dc, ok := ins.(ssa.CallInstruction)
+		if !ok {
+			return
+		}
+		is := false
+		for _, g := range p.Callees(dc) {
+			if g == a.doneCommit {
+				is = true
+			}
+		}
+		if !is {
+			return
+		}
+		nd++
+		args := dc.Common().Args
+		r.Check(len(args) == 2 && args[1] == cts, cfn, "doneCommit(commitTs)", p.Pos(instrPos(ins)), "finishes the timestamp it began", "doneCommit is called with a timestamp other than the one begun")
+		if _, deferred := ins.(*ssa.Defer); deferred {
+			r.Hold(cfn, "doneCommit after the last append", p.Pos(instrPos(ins)), "deferred: runs when Commit returns, after the append")
+			return
+		}
 		// no append after doneCommit
-		aps := applySites(c, cf)
 		bad := false
-		for _, ap := range aps {
-			q := PathQuery{P: p, Fn: cf, Starts: []ssa.Instruction{dc}, Target: func(i ssa.Instruction) bool { return i == ssa.Instruction(ap) }}
+		for _, ap := range applySites(c, cf) {
+			q := PathQuery{P: p, Fn: cf, Starts: []ssa.Instruction{ins}, Target: func(i ssa.Instruction) bool { return i == ssa.Instruction(ap) }}
 			if q.FindPath() != nil {
 				bad = true
 			}
 		}
-		r.Check(!bad, cfn, "doneCommit after the last append", p.Pos(instrPos(dc)), "no wal append can follow doneCommit", "writes are applied after commitMark was finished: a reader that waited for this commit can miss them")
+		r.Check(!bad, cfn, "doneCommit after the last append", p.Pos(instrPos(ins)), "no wal append can follow doneCommit", "writes are applied after commitMark was finished: a reader that waited for this commit can miss them")
+	})
+	if nd == 0 {
+		r.Viol(cfn, "doneCommit", p.Pos(cf.Pos()), "Commit never finishes its commit timestamp on commitMark")
 	}
 }
 
